@@ -210,6 +210,9 @@ func (e *coreEmitter) history(c *CoreCase, name string) string {
 	}
 	// predicate table restricted to the names of this history
 	deny := []string{}
+	for _, p := range c.World.DenyPairs {
+		deny = append(deny, fmt.Sprintf("(%d, %d)", e.in.ID(p[0]), e.in.ID(p[1])))
+	}
 	if c.World.PredDeny > 0 {
 		for k, kid := range e.in.ids {
 			if !strings.HasPrefix(k, "alloc-") {
@@ -221,8 +224,8 @@ func (e *coreEmitter) history(c *CoreCase, name string) string {
 				}
 			}
 		}
-		sort.Strings(deny)
 	}
+	sort.Strings(deny)
 	init := e.obs(c.Init)
 	b.WriteString(fmt.Sprintf("Definition %s : ohistory := mkHist %s [%s]\n  %s\n [\n ", name, coqBool(c.World.ResDelayOn), strings.Join(deny, "; "), init))
 	b.WriteString(strings.Join(steps, ";\n "))
